@@ -9,6 +9,7 @@ import (
 	"testing"
 
 	"github.com/openconfig/gribigo/fluent"
+	"github.com/openconfig/gribigo/rib"
 	"github.com/openconfig/gribigo/server"
 	"google.golang.org/grpc"
 	"google.golang.org/protobuf/proto"
@@ -270,16 +271,24 @@ func vfVerdictS(conn *vfConn, ts *TestSpec) (failed, skipped bool) {
 	return tb.failed, tb.skipped
 }
 
+// vfNewServer: the reference server with a RIB whose default instance and VRF carry the configured names
+// (server.New always names the default instance "DEFAULT"; the fake's InjectRIB installs a RIB built with
+// the same constructor and options under the configured name).
 func vfNewServer(fwdRefsOff bool) *server.Server {
-	opts := []server.ServerOpt{server.WithVRFs([]string{vrfName})}
-	if fwdRefsOff {
-		opts = append(opts, server.WithNoRIBForwardReferences())
-	}
-	s, err := server.New(opts...)
+	f, err := server.NewFake()
 	if err != nil {
 		panic(err)
 	}
-	return s
+	var ro []rib.RIBOpt
+	if fwdRefsOff {
+		ro = append(ro, rib.DisableForwardReferences())
+	}
+	r := rib.New(defaultNetworkInstanceName, ro...)
+	if err := r.AddNetworkInstance(vrfName); err != nil {
+		panic(err)
+	}
+	f.InjectRIB(r)
+	return f.Server
 }
 
 // vfConfigure: the suite's configuration is symbolic - any starting election id in [1, 2^62) (0 is invalid by
@@ -289,11 +298,15 @@ func vfConfigure() {
 	vfAssume(base >= 1)
 	vfAssume(base < 1<<62)
 	SetElectionID(base)
+	def := vfStrK("default-name", "ni")
 	vrf := vfStrK("vrf-name", "ni")
-	vfAssume(vrf != "")
-	vfAssume(vrf != server.DefaultNetworkInstanceName)
-	vfAssume(vrf != nonexistentVRFName)
-	vfAssume(vrf != "TEST-VRF")
+	for _, n := range []string{def, vrf} {
+		vfAssume(n != "")
+		vfAssume(n != nonexistentVRFName)
+		vfAssume(n != "TEST-VRF")
+	}
+	vfAssume(def != vrf)
+	SetDefaultNetworkInstanceName(def)
 	SetNonDefaultVRFName(vrf)
 }
 
